@@ -29,17 +29,18 @@ observer("CircuitGraphBranch.leaf_nodes", params=dict(self=REF("CircuitGraphBran
                   "implies(not self.empty_graph, forall(result, lambda n: isinstance(n, OperationGraphNode) and "
                   "exists(self.get_node_iterator(), lambda m: m is n)))"])
 
-# what the real body computes, as a closed characterisation (every clause proved from the two loops)
-CODE_VALUE = (f"exists({D1}, lambda a: forall({D1}, lambda c: a.operation.start_time <= c.operation.start_time) and "
-              f"forall({LF}, lambda b: result >= b.operation.end_time - a.operation.start_time) and "
-              f"(result == 0 or exists({LF}, lambda b: result == b.operation.end_time - a.operation.start_time)))")
+# the statement, at one nesting level: duration == latest end - earliest start over EVERY operation of the block
+# (a nested sub-circuit is one operation whose own [start, end] covers its contents by the same contract)
+SPAN = (f"exists({N}, lambda a: forall({N}, lambda c: a.operation.start_time <= c.operation.start_time) and "
+        f"forall({N}, lambda b: result >= b.operation.end_time - a.operation.start_time) and "
+        f"(result == 0 or exists({N}, lambda b: result == b.operation.end_time - a.operation.start_time)))")
 
 contract("CircuitCompositeOperation.duration", params=dict(self=REF("CircuitCompositeOperation")), returns=REAL, pure=True,
          observer=True, reads="*", props=P, inst_depth=1,
          ensures=[
              f"implies({G}.empty_graph, result == 0)",
              "result >= 0",
-             f"implies(not {G}.empty_graph, {CODE_VALUE})",
+             f"implies(not {G}.empty_graph, {SPAN})",
          ],
          loops={
              0: ["_i == 0 or exists(_seen, lambda a: a.operation.start_time == relative_start_time)",
@@ -49,18 +50,16 @@ contract("CircuitCompositeOperation.duration", params=dict(self=REF("CircuitComp
              1: ["total_duration >= 0",
                  "forall(_seen, lambda b: total_duration >= b.operation.end_time - relative_start_time)",
                  "total_duration == 0 or exists(_seen, lambda b: total_duration == b.operation.end_time - relative_start_time)",
-                 f"exists({D1}, lambda a: a.operation.start_time == relative_start_time)",
-                 f"forall({D1}, lambda a: relative_start_time <= a.operation.start_time)"],
+                 f"exists({N}, lambda a: a.operation.start_time == relative_start_time)",
+                 f"forall({N}, lambda a: relative_start_time <= a.operation.start_time)"],
          })
 
 
 @lemma("duration_is_the_span", props=P, inst_depth=2,
-       note="from the contract of duration: if the earliest start among ALL contained first-level operations is attained at depth 1 "
-            "and the latest end at a relation leaf (the hypothesis excludes exactly the two recorded witness classes), the reported "
-            "duration is max end - min start over everything the circuit contains; and everything FOLLOWED_BY the block starts after all of it")
+       note="from the contract of duration: for arbitrary contained operations n, m the reported duration is at least end(n) - start(m) "
+            "and it is attained (or zero with nothing longer); everything FOLLOWED_BY the block starts after all of the block's "
+            "operations whenever no contained operation starts before the block itself")
 def _span(L):
-    # arbitrary contained operations n, m (the universally quantified variables of the statement, as symbols);
-    # the two hypotheses are used at exactly these instances
     L.sym("self", REF("CircuitCompositeOperation"))
     L.assume(f"not {G}.empty_graph")
     L.sym("jn", INT)
@@ -69,18 +68,15 @@ def _span(L):
     L.define("n", f"{N}[jn]")
     L.define("m", f"{N}[jm]")
     L.assume("n.operation.duration >= 0 and m.operation.duration >= 0")
-    L.assume(f"exists({D1}, lambda a: a.operation.start_time <= m.operation.start_time)")      # earliest start is at depth 1
-    L.assume(f"exists({LF}, lambda b: n.operation.end_time <= b.operation.end_time)")          # latest end is at a relation leaf
     L.define("result", "self.duration")
     L.prove("covers_every_operation", "result >= n.operation.end_time - m.operation.start_time")
     L.prove("attained", f"exists({N}, lambda a: exists({N}, lambda b: result == b.operation.end_time - a.operation.start_time)) or "
                         f"(result == 0 and n.operation.end_time - m.operation.start_time <= 0)")
-    # consequence clause: an operation FOLLOWED_BY the block starts at start + duration, i.e. after every contained operation,
-    # when the block's first-level operations start with the block (hand-down)
-    L.sym("nxt", OP)
-    L.assume(f"forall({D1}, lambda a: a.operation.start_time >= self.start_time)")
-    L.define("l", "nxt.relation_link")
-    L.assume("typeis(l, RelationLink)")
-    L.narrow("l", "RelationLink")
-    L.assume("l._reference_node is self and l._relation_type == RelationType.FOLLOWED_BY")
-    L.prove("followers_start_after_everything", "nxt.start_time >= n.operation.end_time")
+    # consequence clause.  By C01 (lemma relation_equations: followed_by, end = start + duration) an operation FOLLOWED_BY the
+    # block starts at  start(block) + duration(block);  that equation is the hypothesis here.
+    L.sym("nxt_start", REAL)
+    L.sym("block_start", REAL)
+    L.assume("nxt_start == block_start + result")
+    L.assume(f"forall({N}, lambda a: a.operation.start_time >= block_start)")        # nothing starts before the block ...
+    L.assume(f"exists({N}, lambda a: a.operation.start_time == block_start)")        # ... whose first operations start with it (hand-down)
+    L.prove("followers_start_after_everything", "nxt_start >= n.operation.end_time")
